@@ -486,3 +486,61 @@ def run_lua_cases(binary, cases, nproc=None, timeout_s=600, env=None, sub="lua-r
         for r in ex.map(work, parts):
             results.update(r)
     return results
+
+
+# --------------------------------------------------------------------------
+# expected-event tokens shared by the program-level specs (CoSem, CloseStack, ErrorFlow, ...)
+
+_TOK_T = re.compile(r"T(\d+)$")
+
+
+def tok(x):
+    """token of a spec event -> JSON value the driver reports ("STR" = any string)"""
+    if x is True or x is False:
+        return x
+    if isinstance(x, int):
+        return {"i": str(x)}
+    if x == "nil":
+        return None
+    if x == "STR":
+        return "STR"
+    m = _TOK_T.match(x)
+    if m:
+        return {"t": int(m.group(1))}
+    return {"s": x}
+
+
+def val_match(e, g):
+    t = tok(e)
+    if t == "STR":
+        return isinstance(g, dict) and ("s" in g or "x" in g)
+    return t == g
+
+
+def ev_match(exp, got):
+    return len(exp) == len(got) and all(val_match(e, g) for e, g in zip(exp, got))
+
+
+def compare_program(o, exp_events, exp_fin="done"):
+    """o: lua-run output. exp_fin: 'done' or 'error:<token>'. Returns None or a dict(kind, detail, tag)."""
+    if o.get("timeout"):
+        return {"kind": "hang", "detail": "did not finish within the watchdog"}
+    if o.get("crash") or o.get("panic"):
+        return {"kind": "crash", "detail": (o.get("panic") or o.get("stderr", ""))[:400]}
+    got = o["events"]
+    for j, e in enumerate(exp_events):
+        if j >= len(got):
+            return {"kind": "events", "detail": "missing event %d: expected %s" % (j, json.dumps(e)), "tag": e[0]}
+        if not ev_match(e, got[j]):
+            return {"kind": "events", "detail": "event %d: expected %s got %s" % (j, json.dumps(e), json.dumps(got[j])), "tag": e[0]}
+    if len(got) > len(exp_events):
+        return {"kind": "events", "detail": "extra event %d: %s" % (len(exp_events), json.dumps(got[len(exp_events)])), "tag": "extra"}
+    if exp_fin == "done":
+        if not o.get("ok"):
+            return {"kind": "outcome", "detail": "expected normal end, got error %s" % o.get("errstr", "")[:200]}
+    elif exp_fin.startswith("error:"):
+        if o.get("ok"):
+            return {"kind": "outcome", "detail": "expected error %s, program ended normally" % exp_fin[6:]}
+        if not val_match(exp_fin[6:], o.get("err")):
+            return {"kind": "outcome", "detail": "expected error value %s, got %s" % (exp_fin[6:], json.dumps(o.get("err")))}
+    return None
